@@ -39,6 +39,11 @@ JudgeTransport(e) ==
   Tag(e.helperValueSame, "Ext.HelperProveValueAfterTransport:z" \o ToString(LeadingZeros(e.pi)))
 
 JudgeMutate(e) == Tag(~e.accepted, "Inv.MutationRejected:" \o e.part)
+(* the same lattice at the node's own entry point verifyBlockVRF, with a stake under which every lottery
+   value qualifies and the quality number the header claims computed for the presented proof: only the
+   verification of the proof can refuse.  The unchanged proof is the control. *)
+JudgeBlockVRF(e) == IF e.part = "none" THEN Tag(e.accepted /\ e.qualified, "BlockVRF.control")
+                    ELSE Tag(~e.accepted, "Inv.MutationRejected:" \o e.part) \o Tag(e.qualified, "BlockVRF.qualified")
 
 JudgeTorsion(e) ==
   Tag(e.accepted = TorsionRule(e.cmod8, e.t, e.e), "Torsion.rule") \o
@@ -125,6 +130,7 @@ Judge(e) ==
     [] e.event = "Prove"         -> JudgeProve(e)
     [] e.event = "Transport"     -> JudgeTransport(e)
     [] e.event = "Mutate"        -> JudgeMutate(e)
+    [] e.event = "BlockVRF"      -> JudgeBlockVRF(e)
     [] e.event = "Torsion"       -> JudgeTorsion(e)
     [] e.event = "ValidateProve" -> JudgeValidate(e)
     [] OTHER                     -> <<"unknown-event">>
